@@ -31,6 +31,13 @@ Section Model.
     let p := be64 nonce ++ skipn 8 (pblk s) in                 (* be64enc(stream->pblk, nonce) *)
     mkst 0 (buf s) (upd_byte p (N.to_nat init_idx) init_byte).
 
+  (* NOT a library function: the white-box positioning used by the correspondence harness
+     (drv_aes.c writes stream->bytectr = pos, pos a multiple of 16, right after init2).  With
+     pblk[15] still 0xff the next generate re-encodes the whole counter, so the object behaves as
+     a stream positioned at byte pos: counter carries at blocks 2^16, 2^24, 2^32, ... become
+     reachable without producing gigabytes of keystream. *)
+  Definition seek (pos : N) (s : st) : st := mkst (pos mod two64) (buf s) (pblk s).
+
   (* crypto_aesctr_stream_cipherblock_generate *)
   Definition generate (s : st) : res st :=
     if negb (bytectr s mod 16 =? 0) then AssertFail else
